@@ -204,3 +204,62 @@ Definition no_env : env :=
 Definition ipcase_model_ok (c : ipcase) : bool :=
   opt_eqb bytes_eqb (parse_ip no_env (ip_text c)) (ip_parse c) &&
   opt_eqb (fun x y => bytes_eqb (fst x) (fst y) && bytes_eqb (snd x) (snd y)) (parse_cidr no_env (ip_text c)) (ip_cidr c).
+
+(* ---- end to end: the real binary started with --pac <script>; where a plain request is routed ---- *)
+Record xcase := {
+  xc_e : ecase;            (* the script, the request URL, and what pac.ProxyResolver.FindProxyForURL returned for it *)
+  xc_a : str * str;        (* host and port of the scripted upstream proxy A *)
+  xc_b : str * str;        (* ... B *)
+  xc_route : N             (* observed: 0 = the origin was contacted directly, 1 = via A, 2 = via B, 3 = the proxy failed the request *)
+}.
+(* the route a result string asks for: its first entry *)
+Definition route_of_first (c : xcase) (first : option proxy) : N :=
+  match first with
+  | None => 3
+  | Some p =>
+      if str_eqb (p_mode p) mode_direct then 0
+      else match proxy_url p with
+           | Some (sc, _) =>
+               if negb (str_eqb sc (b "http")) then 3
+               else if str_eqb (p_host p) (fst (xc_a c)) && str_eqb (p_port p) (snd (xc_a c)) then 1
+               else if str_eqb (p_host p) (fst (xc_b c)) && str_eqb (p_port p) (snd (xc_b c)) then 2
+               else 3
+           | None => 0
+           end
+  end.
+Definition route_of_result (c : xcase) (r : option fpresult) : option N :=
+  match r with
+  | Some (PacOk s) => Some (route_of_first c (proxies_first s))
+  | Some PacErr => Some 3
+  | Some PacOutside => None
+  | None => Some 3
+  end.
+(* correspondence: the model's evaluation and parse predict the route the binary takes;
+   also: the resolver API's own answer, parsed, predicts it (resolver API and proxy routing agree) *)
+Definition xcase_model_ok (c : xcase) : bool :=
+  ecase_model_ok (xc_e c) &&
+  match route_of_result c (run_case call_helper (xc_e c)) with
+  | Some r => r =? xc_route c
+  | None => true
+  end &&
+  (let api := match ec_res (xc_e c) with
+              | Some s => route_of_first c (proxies_first s)
+              | None => 3
+              end in api =? xc_route c).
+(* oracle: the route is the one the reference semantics of the script asks for *)
+Definition spec_route (c : xcase) (first : entry_spec) : N :=
+  match first with
+  | SDirect | SUnknown _ _ _ => 0
+  | SMalformed => 3
+  | SProxy kw h p =>
+      if negb (str_eqb kw (b "PROXY") || str_eqb kw (b "HTTP")) then 3
+      else if str_eqb h (fst (xc_a c)) && str_eqb p (snd (xc_a c)) then 1
+      else if str_eqb h (fst (xc_b c)) && str_eqb p (snd (xc_b c)) then 2
+      else 3
+  end.
+Definition xcase_prop_ok (c : xcase) : bool :=
+  match run_spec (xc_e c) with
+  | Some (PacOk s) => (if nil_str s then 0 else spec_route c (spec_entry (first_entry s))) =? xc_route c
+  | Some PacErr | None => 3 =? xc_route c
+  | Some PacOutside => true
+  end.
